@@ -26,7 +26,7 @@
 From Coq Require Import Reals ZArith Lia Lra.
 From Coquelicot Require Import Coquelicot.
 From PA Require Import model.Abel proofs.AbelLemmas proofs.C09Daun proofs.C09Daun2 proofs.C09Daun3 proofs.C09Dasch proofs.C09Rbasex
-  proofs.ExactOnSpan proofs.C09Daun3Comb proofs.C09DaschAxis proofs.C09Prefix proofs.C09Basex gen.FormulasBasis.
+  proofs.ExactOnSpan proofs.C09Daun3Comb proofs.C09Daun3Spline proofs.C09DaschAxis proofs.C09Prefix proofs.C09Basex gen.FormulasBasis.
 Open Scope R_scope.
 
 (* daun, degree 0: A[j][i] is the Abel transform at pixel i of the indicator of
@@ -148,6 +148,40 @@ Theorem C09_spline_C2_iff_tridiagonal : forall ykm yk ykp mkm mk mkp : R,
   <-> mkm + 4 * mk + mkp = 3 * (ykp - ykm).
 Proof. exact spline_C2_iff_tridiagonal. Qed.
 Print Assumptions C09_spline_C2_iff_tridiagonal.
+
+(* daun degree 3, the row shuffle of _bs_daun:
+     C = solve_banded((1,1), (0 1..1 0 | 4..4 | 0 1..1 0), 3*B)[1:-1, 1:-1];
+     A[2:, 1:-1] += C;  A[:-2, 1:-1] -= C
+   i.e. A[j][i] = p(j)[i] + X[j-1][i] - X[j+1][i] with X the interior rows of the solve
+   (x k = X[k][i], cropped rows = 0: prev x j - x (j+1)).  For ANY solution x of the
+   interior (1,4,1) system with right-hand side 3*q(k)[i] and ANY slopes m with zero
+   end slopes that satisfy the C^2 relations of the cardinal spline of knot j
+   (C09_spline_C2_iff_tridiagonal with y = e_j), the entry is the Abel projection of
+   that spline, herm_p_j + sum_k m_k herm_q_k.  (n = S N knots.)  Existence of the
+   two solutions (diagonally dominant systems) is the job of solve_banded and is a
+   hypothesis here; the index conventions of the shuffle are tied numerically
+   (structure check: p3/q3 + replicated solve = _bs_daun(n, 3) at all entries). *)
+Theorem C09_daun3_spline_entry : forall (N j : nat) (i : Z) (m x : nat -> R),
+  (j <= N)%nat -> (0 <= i)%Z ->
+  m O = 0 -> m N = 0 ->
+  (forall k, (1 <= k < N)%nat -> tri3 m k = 3 * (delta j (S k) - delta k (S j))) ->
+  x O = 0 -> x N = 0 ->
+  (forall k, (1 <= k < N)%nat -> tri3 x k = 3 * daun_q3 (Z.of_nat k) i) ->
+  daun_p3 (Z.of_nat j) i + prev x j - (if (S j <? S N)%nat then x (S j) else 0)
+  = Abel (hermite_comb j m (S N)) (zc (S N)) (IZR i).
+Proof. exact daun3_spline_entry. Qed.
+Print Assumptions C09_daun3_spline_entry.
+
+(* pixel columns 0 and >= N: the code adds no correction there, and none is due:
+   the right-hand sides q(k)[i] vanish (odd symmetry / support), so p(j)[i] alone
+   is the projection of the spline *)
+Theorem C09_daun3_spline_entry_edge : forall (N j : nat) (i : Z) (m : nat -> R),
+  (j <= N)%nat -> (i = 0 \/ Z.of_nat N <= i)%Z ->
+  m O = 0 -> m N = 0 ->
+  (forall k, (1 <= k < N)%nat -> tri3 m k = 3 * (delta j (S k) - delta k (S j))) ->
+  daun_p3 (Z.of_nat j) i = Abel (hermite_comb j m (S N)) (zc (S N)) (IZR i).
+Proof. exact daun3_spline_entry_edge. Qed.
+Print Assumptions C09_daun3_spline_entry_edge.
 
 (* Dasch axis row i = 0.  two_point: genuine inverse Abel integrals for j >= 2, the
    documented convention for j = 0, 1.  three_point: inverse Abel integral of the
